@@ -55,7 +55,7 @@ static bool begin_case(const std::string& kind, const std::string& cls, const st
     g_evals++;
     if (g_evals <= g_skip_until) return false;
     set_case(g_evals, Json().num("i", g_evals).str("kind", kind).str("class", cls).str("text", text.substr(0, 600)).str("hex", hex(text.substr(0, 600))).done());
-    g_cpu.arm(3.0);
+    g_cpu.arm(kind == "lookup" ? 60.0 : 3.0);   // (a look-up case is thousands of look-ups - up to 2^10 capitalisations per name in the thorough tier: its budget is protective only)
     return true;
 }
 #define BEGIN(kind, cls, text) do { if (!begin_case(kind, cls, text)) return; } while (0)
